@@ -333,6 +333,7 @@ type env struct {
 	last    *snap // snapshot taken after the previous request of this application instance
 	tl      *tally
 	sample  bool // this env may contribute evidence samples
+	maxRows int  // re-boot when the listing is longer (0: 150)
 }
 
 // tally: per-bubble bookkeeping, merged into the runner when the bubble ends (workers run in parallel).
@@ -449,7 +450,11 @@ func (e *env) run(c *reqCase, refAccept bool, allowed []int, nontrivial bool) {
 	}
 	defer func() {
 		// keep the listing far below its 1000-row limit (only matters when many requests are accepted)
-		if e.last != nil && len(e.last.ids) > 150 && e.s.sentinel != "" {
+		limit := 150
+		if e.maxRows > 0 {
+			limit = e.maxRows
+		}
+		if e.last != nil && len(e.last.ids) > limit && e.s.sentinel != "" {
 			if e.s.reboot(e.s.sentinel) {
 				e.last = nil
 			}
@@ -1180,6 +1185,11 @@ func TestCheck(t *testing.T) {
 		"Basic = 2 users x {every password prefix/suffix, every single-bit flip of user:password, every base64 character deletion, malformed base64, schemes, unknown users}. "+
 		"Forward = {every status 100..599, 4 transport errors, hang until the timeout} x 2 routes. Combined = 4 routes with 4 authenticators x every subset of 6 credential kinds. "+
 		"Config = auth mixes, empty secrets, colliding header names, non-positive tolerance must be refused at boot or still reject. "+
+		"Tolerance = {31 written forms from 1ns to 1d incl. sub-second and non-integral ones (1ms, 250ms, 500ms, 0.5s, 999ms, 999999999ns, 1.000000001s, 1500ms, 1.5s, 2.5s, 59.5s, 1.5m, 0.025h, 5m0.5s, ...)} x {fresh boot | boot with default then reload to it | boot with it then reload to the default} x "+
+		"{header names alternating} x {the valid signed request at every clock offset on / 1 ns inside / 1 ns outside the edge of EVERY tolerance of the alphabet, of its whole-second and millisecond truncations, of x1000 and /1000 unit mistakes and of the default 5m (+-1 s)}; two of the sub-second tolerances (500ms, 1.5s; thorough: 1ns, 1ms, 999ms, 2s too) also carry the complete mutation sets. "+
+		"Reload = 14 credential-changing reloads of one route (Basic password changed / user removed, HMAC inline secret replaced / secret_ref value replaced / validity window closed / header names changed / tolerance narrowed, auth added to an open route (basic, hmac, forward), forward URL changed, basic<->hmac, hmac->forward) x "+
+		"{7 sequential histories of boots, reloads (also back again) and requests | under the controlled scheduler: real reloadConfig || ingress request(s) carrying the old / no (thorough: new, two requests) credential, with and without a request served before, every schedule within a preemption bound AND unbounded with sleep sets}, "+
+		"each followed, once quiescent, by the probe vector {old credential, no credential, new credential, old credential again}: judged by the reference under the configuration in force (after Reload returned true: the new one, exactly as the fresh boot of the new text is judged); an overlapping request by the old or the new configuration. "+
 		"A case is distinct by (family, mutation class, signed-ts point, signer, clock offset, reference verdict, observed status); non-trivial = the un-mutated request is valid at that clock "+
 		"(the mutation decides) or the case is the un-mutated request itself (clock / validity window decides)")
 	r.Assume("the virtual clock of testing/synctest is the clock the application reads (ingress.HMACAuth.Now = time.Now)")
@@ -1188,6 +1198,8 @@ func TestCheck(t *testing.T) {
 	r.Assume("forward auth through an injected in-memory RoundTripper; redirects by the auth service and stalls after a 2xx header are not enumerated (the statement is silent about them)")
 	r.Assume("requests that do not address the route (other method, letter-case variants of the path) may also be answered 404/405; 413/429 paths (body limit, rate limit) are not provoked")
 	r.Assume("reference is the most permissive reading where the statement leaves a choice (hex letter case, white space around header values, duplicate headers, percent-encoding, sign/leading zeros of the timestamp, tolerance boundary inclusive); completeness is only demanded for the unmodified request at clock = signed ts with the signing secret valid at ts-1..ts+1")
+	r.Assume("reload explorations: scheduling points are the lock / atomic operations of the runtime state, the authenticators, the queue store and the servers; code between them is taken to be thread-local (side condition: the free-running -race pass TestRace runs the same thread bodies); the auth service behind `auth forward` is an in-memory RoundTripper installed as http.DefaultTransport (the production ForwardAuth builds its own http.Client)")
+	r.Assume("after a reload that WIDENS the HMAC tolerance the replay protection may refuse stale timestamps it cannot vouch for; completeness after a reload is therefore demanded only for plain credentials (Basic, API key, HMAC with clock = signed ts)")
 	if os.Getenv("C08_DEBUG") != "" {
 		var ks []string
 		for k, n := range classCount {
